@@ -54,7 +54,8 @@ def cases(draw, tier):
             # long series: a large modulus, so that the maximum over ~20 000 inner intervals is (nearly) unique
             moduli = [100003, 10007, 1009] if n >= 150 else [2, 3, 5, 7, 101, 1009]
             sc = {"cls": "FunctionLocalAnomalyScore", "key": draw(st.integers(0, 1000)), "modulus": draw(st.sampled_from(moduli)),
-                  "offset": draw(st.sampled_from([0, 0, 1, 2])), "ncols": draw(st.sampled_from([1, 1, 2, 3]))}
+                  "offset": draw(st.sampled_from([0, 0, 1, 2])), "ncols": draw(st.sampled_from([1, 1, 2, 3])),
+                  "int_output": draw(st.integers(0, 2)) == 0}
             X = [[0.0] * p for _ in range(n)]
         else:
             bulk = "matrix"
